@@ -392,7 +392,12 @@ Fixpoint seq_run_t (f : forest) (w : world) (h : list treq) : world * list out :
       (w'', o :: os)
   end.
 
-(* the readings of one request do not decrease, and requests follow each other in time *)
+(* the readings of one request do not decrease, and requests follow each other in time.
+   [seq_clock_ok_t] threads [last later now] to the next request even when
+   [later] is longer than the chain or the walk stopped before using all of it:
+   readings nobody took still constrain the next request.  That only makes the
+   hypothesis stronger than needed (harmless; suite engt emits such an extra
+   reading for about 1 request of 8). *)
 Fixpoint mono (clk : Z) (l : list Z) : Prop :=
   match l with
   | [] => True
@@ -549,6 +554,11 @@ Fixpoint outs_eqb (a b : list out) : bool :=
   | _, _ => false
   end.
 
+(* UNUSED since the metrics round: no suite evaluates [run_res] / [run_eng] any
+   more (suite res = Events.run_rese, suite eng = Metrics.run_engm; they reduce
+   to [run] / [seq_run_t] by C01_event_frame + C01_scrape_frame and
+   C01_seq_scrape_frame + C01_levels_generalise).  Nothing in /verif/theories
+   or /verif/harness refers to them. *)
 Definition case_res := (forest * list action * list out)%type.
 Definition run_res (k : case_res) : option (list out) :=
   let '(f, acts, obs) := k in
